@@ -8,12 +8,30 @@ import sys
 import tempfile
 
 
-def run(ctx, keys_prefix, select=None):
+FAMILIES = {
+    # family -> (monitors to install, violation-key test, counters to report)
+    "tokenizer": ("tokenizer", lambda k: not k.startswith("validator") and not k.startswith(PREFIXES),
+                  ("tokenize_calls", "generator_calls", "tokens", "frames", "checked_c04", "unaligned", "abandoned_generators")),
+    "validator": ("validator", lambda k: k.startswith("validator"), ("validator_verdicts", "validator_verdicts_checked")),
+    "split": ("split", lambda k: k.startswith("split:"), ("split_calls_checked", "split_regions_checked")),
+    "reader": ("reader", lambda k: k.startswith("reader:"), ("reader_blocks_checked", "reader_streams_ended")),
+    "source": ("source", lambda k: k.startswith("source:"), ("source_reads_checked", "source_reads_none")),
+    "region-slice": ("region", lambda k: k.startswith("region-slice:"), ("region_slices_checked",)),
+    "region-algebra": ("region", lambda k: k.startswith("region-algebra:"),
+                       ("region_concats_checked", "region_repeats_checked", "region_divisions_checked", "region_equalities_checked")),
+}
+PREFIXES = ("split:", "reader:", "source:", "region-slice:", "region-algebra:")
+
+
+def run(ctx, family, select=None):
+    """the repository's own tests with the passive monitors of one family riding along; their findings become violations
+    `repo-tests:<key>` of the calling check, their counters `repo_tests_<counter>`"""
+    monitors, mine, counters = FAMILIES[family]
     repo = os.environ.get("VERIF_REPO", "/repo")
     fd, out = tempfile.mkstemp(prefix="vf-plugin-", suffix=".json")
     os.close(fd)
-    env = dict(os.environ, VF_PLUGIN_OUT=out, PYTHONDONTWRITEBYTECODE="1")
-    cmd = [sys.executable, "-m", "pytest", "-q", "-p", "no:cacheprovider", "-p", "vf.pytest_plugin", "-x" if False else "-q"]
+    env = dict(os.environ, VF_PLUGIN_OUT=out, VF_PLUGIN_MONITORS=monitors, PYTHONDONTWRITEBYTECODE="1")
+    cmd = [sys.executable, "-m", "pytest", "-q", "-p", "no:cacheprovider", "-p", "vf.pytest_plugin"]
     if select:
         cmd += select
     try:
@@ -28,14 +46,12 @@ def run(ctx, keys_prefix, select=None):
             os.unlink(out)
         except OSError:
             pass
-    for k in ("tokenize_calls", "generator_calls", "tokens", "frames", "checked_c04", "unaligned", "abandoned_generators",
-              "validator_verdicts", "validator_verdicts_checked"):
+    for k in counters:
         ctx.count("repo_tests_" + k, state.get(k, 0))
     if state.get("monitor_errors"):
         ctx.count("repo_tests_monitor_errors", len(state["monitor_errors"]))
         ctx.note("monitor error while riding the repository tests: " + state["monitor_errors"][0])
     for key, detail in state.get("violations", []):
-        is_validator = key.startswith("validator")
-        if (keys_prefix == "validator") == is_validator:
+        if mine(key):
             ctx.violation("repo-tests:" + key, {"case": {"repo_test": detail.get("where")}, "detail": detail})
     return state
